@@ -1,8 +1,9 @@
 (* C02 — Every optimisation combination preserves the meaning of the expression.
-   Statements; proofs in Proofs/OptSound.v. PARTIAL: the first sentence (agreement of values) is proved in full;
-   "all configurations return it when every reachable operand succeeds" and "with Reordering off the unoptimised
-   value is returned" are checked by the correspondence (all 16 subsets x directives on every run), not proved. *)
-Require Import Base Opcode Tables Ops Tree Opt Flat Run EvalDefs EvalTop OptSound Reorder.
+   Statements; proofs in Proofs/OptSound.v (agreement of values), OptTotal.v (all configurations return the value when
+   every reachable operand succeeds), OptValue.v (Reordering off: the unoptimised value). All three sentences of the
+   property are theorems; `optimize` is compared with Go's optimised tree on every run, and all 16 subsets set by
+   options and by `;;;;` directives are compared directly. *)
+Require Import Base Opcode Tables Ops Tree Opt Flat Run EvalDefs EvalTop OptSound Reorder OptValue OptTotal.
 From Coq Require Import Permutation.
 Open Scope Z_scope.
 
@@ -39,6 +40,36 @@ Proof.
   inversion HA; inversion HB; subst. eapply configurations_agree; eauto.
 Qed.
 
+(* second sentence: when evaluating every reachable operand succeeds — `rok t = Some v`: all operands of every
+   operator in whatever order, and the taken branch of every `if`, evaluate, with result v — every configuration (any
+   subset of the four passes incl. Reordering, any cost map, any stateless declarations) returns v *)
+Theorem C02_all_configurations_return : forall fetch custom cfg t v,
+  rok fetch custom t = Some v -> snd (sem fetch custom (optimize custom cfg t)) = Ok v.
+Proof. exact all_configurations_return. Qed.
+Theorem C02_all_configurations_return_compiled : forall fetch custom cfg t v,
+  rok fetch custom t = Some v -> snd (eval fetch custom (compile (optimize custom cfg t))) = MVal v.
+Proof.
+  intros fetch custom cfg t v H. rewrite run_compile_correct. unfold sem_obs. cbn [snd].
+  pose proof (all_configurations_return fetch custom cfg t v H) as A. unfold val in A. rewrite A. reflexivity.
+Qed.
+
+(* third sentence: with Reordering off, whatever the other switches, costs and stateless declarations: if plain
+   left-to-right short-circuit evaluation of the parsed tree (no fast marks) returns a value, the optimised
+   expression returns that value — on the property's domain (and/or operands boolean-valued) under a binding of all
+   variables; so guard patterns stay safe *)
+Theorem C02_reordering_off : forall fetch custom cfg t v,
+  pass_on cfg "reordering" = false -> nofast t -> wt fetch custom t -> vars_ok fetch t ->
+  snd (sem fetch custom t) = Ok v -> snd (sem fetch custom (optimize custom cfg t)) = Ok v.
+Proof. exact no_reorder_value. Qed.
+Theorem C02_reordering_off_compiled : forall fetch custom cfg t v,
+  pass_on cfg "reordering" = false -> nofast t -> wt fetch custom t -> vars_ok fetch t ->
+  snd (eval fetch custom (compile t)) = MVal v -> snd (eval fetch custom (compile (optimize custom cfg t))) = MVal v.
+Proof.
+  intros fetch custom cfg t v Hr Hn Hw Hv H. rewrite run_compile_correct in *. unfold sem_obs in *. cbn [snd] in *.
+  destruct (snd (sem fetch custom t)) as [v0|e] eqn:E; [|discriminate]. inversion H; subst v0.
+  pose proof (no_reorder_value fetch custom cfg t v Hr Hn Hw Hv E) as A. unfold val in A. rewrite A. reflexivity.
+Qed.
+
 (* non-vacuity: the guard pattern under all passes; a reordering that moves a failing operand behind a deciding one *)
 Definition fz (n : str) (k : Z) : res value := if str_eqb n (ss "x") then Ok (VInt 0) else Ok (VBool true).
 Definition nocustom (n : str) (a : list value) : res value := Err (EOther 0).
@@ -66,5 +97,12 @@ Proof.
     constructor. left. vm_compute. reflexivity. constructor.
 Qed.
 
+Example C02_ex_hyps : nofast guard /\ vars_ok fz guard /\ pass_on cfg_none "reordering" = false.
+Proof. cbn. repeat split; eexists; reflexivity. Qed.
+Example C02_ex_rok : rok fz nocustom (TOp (ss "or") false [TOp (ss "=") false [TVar (ss "x") 1; TConst (VInt 0)]; TVar (ss "b") 2; TConst (VBool false)]) = Some (VBool true).
+Proof. vm_compute. reflexivity. Qed.
+
 Print Assumptions C02_configurations_agree.
 Print Assumptions C02_compiled_agree.
+Print Assumptions C02_all_configurations_return_compiled.
+Print Assumptions C02_reordering_off_compiled.
